@@ -12,7 +12,7 @@ META = {
     "level": "exploration",
     "rule": ("case = {op kind, parameters (type descriptors)}; distinct by JSON; non-trivial when the op has "
              ">= 1 non-empty row (Call/LoadFunc: polymorphic signature)"),
-    "required": ["monitor:outer", "monitor:inner", "monitor:port-kind", "monitor:num_out", "monitor:program-port",
+    "required": ["monitor:outer", "monitor:inner", "monitor:port-kind", "monitor:num_out", "monitor:program-port", "monitor:retyped",
                  "monitor:graph-port-type", "monitor:order-port", "feature:arity-changing-instantiation",
                  "feature:empty-row", "feature:linear"] + [f"cases:{k}" for k in (
                      "Input", "Output", "DFG", "CFG", "DataflowBlock", "ExitBlock", "Conditional", "Case",
@@ -384,6 +384,63 @@ def nontrivial(c):
         or c["k"] in ("Noop", "LoadConst", "Const")
 
 
+def check_retyped(ctx, c):
+    """one partial-op instance (MakeTuple / UnpackTuple / Noop / CallIndirect) used for several nodes through
+    the public builder route: after each use every reported fact and the serialized form must be those of
+    the *current* typing"""
+    from hugr import InPort, Node, OutPort, ops
+    from hugr.build import Dfg
+    from vf.gen.types import Builder, wire_ty
+    from vf.oracles import wire
+
+    name = c["op"]
+    op = getattr(ops, name)()
+    for use, row in enumerate(c["rows"]):
+        ctx.count("monitor:retyped")
+        B = Builder()
+        if name == "MakeTuple":
+            ins, outs = row, [["tuple", row]]
+        elif name == "UnpackTuple":
+            ins, outs = [["tuple", row]], row
+        elif name == "Noop":
+            row = row[:1] or [["bool"]]
+            ins, outs = row, row
+        else:  # CallIndirect over a function of this row
+            f = ["func", row, list(reversed(row)), []]
+            ins, outs = [f, *row], list(reversed(row))
+        d = Dfg(*B.row(ins))
+        n = d.add_op(op, *d.inputs())
+        want = (exp_row(ins), exp_row(outs))
+
+        def bad(kind, exp, obs):
+            ctx.disc(None, f"retyped-{kind}", [name, use], exp, obs, stratum="retyped", case=c)
+
+        got = sig_rows(op.outer_signature())
+        if got != want:
+            bad("outer-signature", want, got)
+        if op.num_out != len(outs):
+            bad("num_out", len(outs), op.num_out)
+        if d.hugr.num_in_ports(n) < len(ins) or d.hugr.num_out_ports(n) != len(outs):
+            bad("port-counts", [len(ins), len(outs)], [d.hugr.num_in_ports(n), d.hugr.num_out_ports(n)])
+        if len(list(n)) != len(outs):
+            bad("handle-outputs", len(outs), len(list(n)))
+        for i, t in enumerate(outs):
+            try:
+                k = kind_repr(op.port_kind(OutPort(Node(0), i)))
+            except Exception as e:  # noqa: BLE001
+                k = ["raised", type(e).__name__]
+            if k != ["value", exp_t(t)]:
+                bad("port-kind", ["value", exp_t(t)], k)
+        j = op._to_serial(Node(0)).model_dump(mode="json")
+        sg = j["signature"]
+        got_w = ([wire.strip_reqs(wire.canon(t)) for t in sg["input"]],
+                 [wire.strip_reqs(wire.canon(t)) for t in sg["output"]])
+        # CallIndirect serializes the signature of the function it calls, the others their own
+        want_w = (exp_row(row), exp_row(list(reversed(row)))) if name == "CallIndirect" else want
+        if got_w != want_w:
+            bad("serialized-signature", want_w, got_w)
+
+
 def check_program_ports(ctx, p):
     """every port of every node of a built program: Hugr.port_kind must be the kind the op's *serialized*
     signature gives that port (wire table), and Hugr.port_type the payload of a value kind"""
@@ -429,6 +486,15 @@ def run(ctx):
                         force=("rowpoly-call",) if i % 4 == 0 else ())
         nn = ctx.guard("program", p, check_program_ports, ctx, p)
         ctx.case("program", p, nn is not None and nn >= 6)
+    from vf.gen.types import Gen
+
+    for i in ctx.mine(ctx.n(800, 20000)):
+        r = ctx.rng("retyped", i)
+        g = Gen(r, allow_vars=False)
+        c = {"k": "Retyped", "op": r.choice(["MakeTuple", "UnpackTuple", "Noop", "CallIndirect"]),
+             "rows": [g.row(1, 3, in_row=False) for _ in range(r.randint(2, 3))]}
+        ctx.case("Retyped", c, len({len(x) for x in c["rows"]}) > 1)
+        ctx.guard("retyped", c, check_retyped, ctx, c)
     maxd = ctx.n(2, 3)
     for i in ctx.mine(ctx.n(16000, 600000)):
         r = ctx.rng("op", i)
@@ -439,7 +505,9 @@ def run(ctx):
 
 
 def replay(ctx, rec):
-    if rec.get("stratum") == "program":
+    if rec.get("stratum") == "retyped":
+        check_retyped(ctx, rec["case"])
+    elif rec.get("stratum") == "program":
         check_program_ports(ctx, rec["case"])
     else:
         check_case(ctx, rec["case"])
